@@ -338,7 +338,69 @@ fn check_result(res: &[NetflowPacket], st: &mut JStats) -> Result<usize, Div> {
 
 pub fn run_c16(w: &mut W) {
     let mut st = JStats::default();
-    super::idspace::run_json(w, 0);
+    let mut j = super::idspace::run_json(w, 0);
+    // error elements with arbitrary remaining bytes: payloads around and beyond the datagram limit
+    // (a caller may hand parse_bytes any slice, e.g. a replayed capture)
+    for size in [300usize, 65534, 65535, 65536, 65537, 70000, 131072, 262144] {
+        for kind in 0..3 {
+            if w.oneoff(j) {
+                let mut rng = w.begin_case(crate::worker::ONEOFF + j, "large-error-payload");
+                let mut sut = Sut::new(2);
+                let mut buf: Vec<u8> = vec![];
+                match kind {
+                    0 => {
+                        // allowed but unknown version: UnknownVersion carries the bytes after the version field
+                        for p in sut.parsers.iter_mut() {
+                            p.allowed_versions.insert(11);
+                        }
+                        buf.extend_from_slice(&[0, 11]);
+                    }
+                    1 => {
+                        // V9 packet with data for an unknown template: Partial carries the packet
+                        buf.extend_from_slice(&[0, 9, 0, 1]);
+                        buf.extend(rng.bytes(16));
+                        buf.extend_from_slice(&[1, 44, 0, 40]);
+                    }
+                    _ => {
+                        // V5 header announcing more records than present
+                        buf.extend_from_slice(&[0, 5, 0xff, 0xff]);
+                        buf.extend(rng.bytes(20));
+                    }
+                }
+                while buf.len() < size {
+                    buf.push(rng.u8());
+                }
+                let r0 = sut.parse(0, &buf);
+                let r1 = sut.parse(1, &buf);
+                w.rep.count("results_serialized", 1);
+                w.rep.count("large_error_payloads", 1);
+                let has_error = r0.iter().any(|e| e.is_error());
+                let v = if !has_error {
+                    Err(div("json/large-error", "no-error-element", format!("{}-byte buffer of kind {} returned no error element", size, kind)))
+                } else {
+                    check_result(&r0, &mut st).and_then(|n| {
+                        w.rep.count("json_bytes", n as u64);
+                        let t0 = serde_json::to_string(&r0).unwrap_or_default();
+                        let t1 = serde_json::to_string(&r1).unwrap_or_default();
+                        w.rep.count("instance_pairs_compared", 1);
+                        if t0 != t1 {
+                            Err(div("json/determinism", "instances", "two parser instances fed the same buffer serialize differently".into()))
+                        } else {
+                            Ok(())
+                        }
+                    })
+                };
+                w.rep.shape(&format!("large-error kind={} size={}", kind, size));
+                if let Err(d) = v {
+                    // the buffer is reproducible from the case coordinates; keep the replay small
+                    let r = if size <= 70000 { sut.replay_json() } else { json!({"note": format!("buffer of {} bytes of kind {}: re-run the case (bin/check --replay)", size, kind)}) };
+                    w.rep.violation(sig("C16", &d), &d, r);
+                }
+            }
+            j += 1;
+        }
+    }
+    let _ = j;
     for idx in w.indices() {
         let mut rng = w.begin_case(idx, "json");
         // two parser instances are fed the same history
